@@ -220,7 +220,7 @@ PROPS["C01"] = {
         {"pkg": "app", "name": "VerifC01_Api", "quick": {"d": 1}, "thorough": {"d": 2}, "native": False, "reach": ["end", "launched.after.ready"],
          "bounds": {"operation": "RestartProcess / StopProcess+StartProcess / ScaleProcess to 2 / UpdateProject adding a dependent", "dependency": "process_healthy that becomes ready later, or process_completed_successfully that failed"}},
         {"pkg": "app", "name": "VerifC01_Api2", "quick": {"d": 1}, "thorough": {"d": 2}, "native": False, "reach": ["end", "launched.after.ready"],
-         "bounds": {"scenario": "dependent with a never-scheduled (disabled) sibling dependency, both depends_on orders / dependency restarted through the API before the dependent is started / UpdateProject adding a dependency and its dependent at once, every map order / a process_log_ready dependency stopped or restarted through the API before its ready line / a process_started dependency stopped (API or project shutdown) while it was still waiting for its own dependencies / a process_healthy dependent started while its dependency, ready before, is down in its restart back-off",
+         "bounds": {"scenario": "dependent with a never-scheduled (disabled) sibling dependency, both depends_on orders / dependency restarted through the API before the dependent is started / UpdateProject adding a dependency and its dependent at once, every map order / a process_log_ready dependency stopped or restarted through the API before its ready line / a process_started dependency stopped (API or project shutdown) while it was still waiting for its own dependencies / a process_healthy dependent started while its dependency, ready before, is down in its restart back-off / a failing dependency (restart on_failure) stopped during its back-off",
                     "schedules": "one preemption (two thorough)"}},
         {"pkg": "app", "name": "VerifC01_Gating", "quick": {"d": 0}, "thorough": {"d": 1}, "replay_repeat": 8,
          "bounds": {"N": 3, "edges": "every subset of {p1->p0,p2->p0,p2->p1} x {completed, completed_successfully, log_ready, started}", "dependency behaviour": "exit 0 / exit 3 / killed by a signal (-1) / runs until stopped",
@@ -236,6 +236,8 @@ PROPS["C04"] = {
     "harnesses": [
         {"pkg": "app", "name": "VerifC04_ExitCode", "quick": {}, "thorough": {},
          "bounds": {"exit code": "full int64", "policy": "arbitrary string len<=16", "exit_on_end/exit_on_skipped": "both"}},
+        {"pkg": "app", "name": "VerifC04_EarlyTrigger", "quick": {"d": 2}, "thorough": {"d": 3}, "replay_repeat": 8,
+         "bounds": {"N": 3, "p0": "cannot be started, exit_on_failure", "p1,p2": "run until stopped", "schedules": "the trigger anywhere in the start-up (two preemptions, three thorough)"}},
         {"pkg": "app", "name": "VerifC04_ReadyWaiter", "quick": {"d": 2}, "thorough": {"d": 3}, "replay_repeat": 8,
          "bounds": {"N": 2, "p0": "exits 0, exit_on_end or exit_on_failure, readiness probe never answered", "p2": "process_healthy on p0", "schedules": "two preemptions (three thorough)"}},
         {"pkg": "app", "name": "VerifC04_Project", "quick": {"d": 0}, "thorough": {"d": 1}, "replay_repeat": 8, "reach": ["end", "nonzero.exit"],
@@ -291,6 +293,8 @@ PROPS["C11"] = {
          "bounds": {"log_length": "{0,1,3}", "lines written": "log_length + {99,100,101,102,200,201,202} (both sides of the first two trimming points)"}},
         {"pkg": "app", "name": "VerifC11_Streams", "quick": {"d": 2}, "thorough": {"d": 3}, "replay_repeat": 6,
          "bounds": {"output": "two stdout lines and two stderr lines, then exit 0", "readers": "the stderr reader may be delayed at every read (delay bound d)"}},
+        {"pkg": "app", "name": "VerifC11_UnifiedLog", "quick": {"d": 1}, "thorough": {"d": 2}, "replay_repeat": 6,
+         "bounds": {"project": "unified log file; worker with 1 or 2 replicas (one line each, exit 0); writer with two stdout lines and one stderr line that ends last"}},
         {"pkg": "pclog", "name": "VerifC11_LoggerDrain", "quick": {"d": 1}, "thorough": {"d": 3}, "replay_repeat": 6,
          "bounds": {"lines": "1..3 handed to the file logger (Info/Error alternating), then Close", "logger config": "default / flush_each_line / no_metadata / add_timestamp",
                     "collector progress": "every interleaving of the collector with the producer at the per-line scheduling points within the delay bound"}},
@@ -299,7 +303,7 @@ PROPS["C11"] = {
               "zerolog: one Write of message+newline per Msg to the writer given to zerolog.New (natively the real zerolog)", "PCLog.getWriter: an in-memory sink (natively a real file)"],
     "assumptions": ["real pipes, kernel buffering, zerolog formatting and rotation are outside the claim (reduced scope)"],
 }
-_lv("C11", "handleOutput/handleInfo/ProcessLogBuffer.Write over a scripted stream of <=3 complete lines plus a final fragment with symbolic contents: the in-memory log holds exactly the delivered lines, once, in order, newline stripped, an unterminated last line included; end of stream signalled once. Window: log_length+{99..102,200..202} lines through the real handleOutput: the most recent log_length lines are in the log in order, the last line written is the newest entry. Streams: real Run() on a command that writes to stdout and stderr and exits, the stderr reader delayed at will: when Run() returns every line of both streams is in the log, once, in stream order. Log file: real PCLog Open/Info/Error/Close/runCollector + the standard library's bufio.Writer, 1-3 lines, four logger configurations, every collector interleaving within the delay bound: every line handed over before Close is in the file exactly once and in order after Close, and nothing is written after the file was closed.",
+_lv("C11", "handleOutput/handleInfo/ProcessLogBuffer.Write over a scripted stream of <=3 complete lines plus a final fragment with symbolic contents: the in-memory log holds exactly the delivered lines, once, in order, newline stripped, an unterminated last line included; end of stream signalled once. Window: log_length+{99..102,200..202} lines through the real handleOutput: the most recent log_length lines are in the log in order, the last line written is the newest entry. Streams: real Run() on a command that writes to stdout and stderr and exits, the stderr reader delayed at will: when Run() returns every line of both streams is in the log, once, in stream order. Unified log: real Run() with a project-level log file, a 1-2 replica worker and a writer that ends last: every line of every process is in the file once Run() has returned. Log file: real PCLog Open/Info/Error/Close/runCollector + the standard library's bufio.Writer, 1-3 lines, four logger configurations, every collector interleaving within the delay bound: every line handed over before Close is in the file exactly once and in order after Close, and nothing is written after the file was closed.",
     "bufio.ReadString and zerolog modelled by their contracts under symgo (real ones natively); file opening replaced by a sink under symgo; very long lines and rotation are outside - reduced scope.")
 
 PROPS["C16"] = {
